@@ -795,3 +795,38 @@ Proof.
     + repeat constructor.
     + vm_compute. tauto.
 Qed.
+
+(* ------------------------------------------------------------------ the --tmux popup proxy *)
+(* the inner fzf writes <script>.become only on its way out with status ExitBecome (126) *)
+Definition penv_consistent (e : penv) : Prop :=
+  pe_inner_become e = true -> pe_child e = 126 /\ pe_exiterr e = true.
+
+Lemma proxy_files_removed_proof : forall e, penv_consistent e -> pr_left (run_proxy e) = [].
+Proof.
+  intros [tty ook iok bok ch xe ib tok] H. unfold penv_consistent in H. cbn in H.
+  unfold run_proxy. cbn.
+  destruct ook; [|reflexivity].
+  destruct ib.
+  - destruct (H eq_refl) as [-> ->]. destruct tty, iok, bok, tok; reflexivity.
+  - clear H. destruct tty, iok, bok; cbn; try reflexivity;
+      (destruct (ch =? 0); [reflexivity|]; destruct xe; [|reflexivity]; destruct (ch =? 126); reflexivity).
+Qed.
+
+(* the hypothesis is needed: a become file written by an inner fzf whose popup is then closed from outside
+   (status 129 instead of 126) is left behind *)
+Lemma proxy_files_removed_needs_consistency_proof :
+  exists e, pe_child e <> 126 /\ pr_left (run_proxy e) = [PFBecome].
+Proof. exists (mkPenv false true true true 129 true true true). split; [discriminate|reflexivity]. Qed.
+
+(* what exists while the popup is open: output fifo, input fifo iff standard input is not a terminal, script *)
+Lemma proxy_live_files_proof : forall e, pe_out_ok e = true -> pe_builder_ok e = true -> (pe_stdin_tty e = true \/ pe_in_ok e = true) ->
+  pr_live (run_proxy e) = if pe_stdin_tty e then [PFOut; PFScript] else [PFOut; PFIn; PFScript].
+Proof.
+  intros [tty ook iok bok ch xe ib tok]. cbn. intros -> -> H. unfold run_proxy. cbn.
+  destruct tty; cbn.
+  - destruct (ch =? 0); [reflexivity|]. destruct xe; [|reflexivity]. destruct (ch =? 126); [|reflexivity].
+    destruct ib; cbn; [destruct tok|]; reflexivity.
+  - destruct H as [H|H]; [discriminate|]. rewrite H. cbn.
+    destruct (ch =? 0); [reflexivity|]. destruct xe; [|reflexivity]. destruct (ch =? 126); [|reflexivity].
+    destruct ib; cbn; [destruct tok|]; reflexivity.
+Qed.
